@@ -24,7 +24,10 @@ CORRESPONDENCE = ("Model.ProxyGen.reaction_all (= map Model.Its.split_its over M
                   "pairs, exact graph equality incl. dict orders, and the terminal event")
 RULE = ("reaction proxies over random acyclic group DAGs as in C14 with ITS <g,h> bonds forced in the core patterns "
         "(groups with and without ITS bonds, empty patterns, multi-anchor graphs, parallel attachments, 1-3 cores), "
-        "enable_aam=True (85%) or False; the test-suite reactions; the shipped DielsAlderProxy in positive and "
+        "enable_aam=True (85%) or False; 15% with a repeated core graph, 20% with an iteration history on one "
+        "ReactionProxy object (k samples through next()/get_next()/a broken loop, then list(proxy)), 25% with an explicit "
+        "Parser(use_multigraph=True|False, init_aam=True|False) (simple-graph parser and init_aam with enable_aam=False: "
+        "checkers only, not modelled); the test-suite reactions; the shipped DielsAlderProxy in positive and "
         "negative mode: quick = every 37th sample (and the first and last 20) of the full enumeration + the count, "
         "thorough = all 10470 + 12875 samples in slices. non-trivial = at least one sample with a reaction-centre "
         "bond; distinct = distinct configuration / slice")
@@ -47,6 +50,22 @@ def gen_reaction_config(rng, limit):
             continue
         cfg["aam"] = rng.random() < 0.85
         c["cls"] = "ReactionProxy"
+        # histories on one object (k samples through next()/get_next()/a broken loop, then list(proxy)),
+        # explicit parsers (use_multigraph / init_aam), equal core graphs: a separate random stream
+        r = rng.random()
+        if r < 0.15 and cfg["core"]:
+            j = rng.randrange(len(cfg["core"]))
+            cfg["core"] = list(cfg["core"]) + [[cfg["core"][j][0], list(cfg["core"][j][1])]]
+            c["expected"] = pc.count_formula(cfg, limit=100 * limit)
+        r = rng.random()
+        if r < 0.2:
+            n = c.get("expected") or 3
+            c["drive"] = [rng.choice(base.DRIVES), rng.choice([1, 1, 2, max(1, n // 2), max(1, n - 1), n + 1])]
+        r = rng.random()
+        if r < 0.25:
+            c["parser"] = rng.choice(base.PARSERS)
+            if c["parser"][1]:
+                cfg["aam"] = rng.random() < 0.9
         return c
     raise RuntimeError("no reaction configuration found")
 
@@ -60,7 +79,7 @@ def generate(seed, tier, ncases=None):
     global CHUNK
     quick = tier == "quick"
     CHUNK = 25 if quick else 1
-    n = ncases or (160 if quick else 1200)
+    n = ncases or (125 if quick else 1200)
     limit = 200 if quick else 2000
     da = []
     if not ncases:
@@ -99,6 +118,17 @@ def corpus():
     yield base._mk(["C<1,2>C<2,1>{g}", "{g}<0,1>C"], [("g", ["O", "C=C", ""])], cls="ReactionProxy")
     yield base._mk(["C<2,1>C{g}"], [("g", ["C<1,2>O", "N"])], aam=False, cls="ReactionProxy")
     yield base._mk(["C1<1,2>{g}<2,1>1"], [("g", ["C", ["CC", [0, 1]]])], cls="ReactionProxy")
+    # explicit parsers: parse-time map numbers (init_aam) must not survive into the samples; simple-graph parser
+    for ps in base.PARSERS:
+        c = base._mk(["C<1,2>C<2,1>{g}N{h}", "{h}<0,1>C"], [("g", ["O", "C=C", ""]), ("h", [["C{g}", [1, 0]], "S"])],
+                     cls="ReactionProxy")
+        c["parser"] = ps
+        yield c
+    # histories on one ReactionProxy object; equal core graphs
+    for drv in (["next", 1], ["get_next", 2], ["break", 2]):
+        c = base._mk(["C<2,1>C{g}", "C<2,1>C{g}"], [("g", ["C<1,2>O", "N", "S"])], cls="ReactionProxy")
+        c["drive"] = drv
+        yield c
 
 
 _da_cache = {}
@@ -119,7 +149,7 @@ def _da_all(neg, core=None):
         real = fp.split_its
 
         def recorder(graph):
-            its.append(base.gens_copy(graph))
+            its.append(graph)      # split_its copies its argument and nothing touches it afterwards
             return real(graph)
 
         fp.split_its = recorder
@@ -147,10 +177,10 @@ def run_impl(c):
         return {"its": [its[i] for i in sel if i < len(its)], "pairs": [pairs[i] for i in sel], "status": status,
                 "stays": stays, "n": len(pairs), "n_its": len(its), "msgs": msgs}
     cfg = c["cfg"]
-    p = pc.build_proxy(cfg, cls=ReactionProxy, how=c["how"])
+    p = pc.build_proxy(cfg, cls=ReactionProxy, how=c["how"], parser=c.get("parser"))
     msgs = []
     try:
-        if pc.dump_proxy(p) != cfg:
+        if pc.dump_proxy(p, any_parser=c.get("parser") is not None) != cfg:
             msgs.append("the proxy object does not hold the configuration it was built from")
     except pc.Unexpected as e:
         msgs.append("proxy object outside the modelled domain: %s" % e)
@@ -159,12 +189,15 @@ def run_impl(c):
     real = fp.split_its
 
     def recorder(graph):
-        its.append(base.gens_copy(graph))
+        its.append(graph)      # split_its copies its argument and nothing touches it afterwards
         return real(graph)
 
     fp.split_its = recorder
     try:
-        pairs, status, stays = base._iterate(p, lambda q: q.get_next())
+        if c.get("drive"):
+            pairs, status, stays = base._drive(p, c["drive"])
+        else:
+            pairs, status, stays = base._iterate(p, lambda q: q.get_next())
     finally:
         fp.split_its = real
     return {"its": its, "pairs": pairs, "status": status, "stays": stays, "n": len(pairs), "n_its": len(its), "msgs": msgs}
@@ -197,8 +230,14 @@ def coq_case(c, out):
         if out["status"] != "done":
             agree = "false"
         return {"defs": defs, "checks": {"agree": agree, "spec": spec}, "diag": []}
-    defs = {"cfg": pc.cfg_term(c["cfg"]), "out": pairs_term(out["pairs"]), "its": base.graphs_term(out["its"])}
+    defs = {"cfg": pc.cfg_term(c["cfg"], mg=base.parser_mg(c)), "out": pairs_term(out["pairs"]),
+            "its": base.graphs_term(out["its"])}
     agree = "rgen_eqb (reaction_all $cfg) ($out, %s)" % base.STATUS[out["status"]]
+    ps = c.get("parser")
+    if ps is not None and (not ps[0] or (ps[1] and not c["cfg"]["aam"])):
+        # not modelled (simple-graph parser / parse-time map numbers left in place by enable_aam=False):
+        # only the checkers run on these outputs
+        agree = "true"
     if out["status"] == "done" and c["cfg"]["aam"]:
         spec = "C15_all_okb $its $out"
     elif out["status"] == "done":
@@ -213,6 +252,8 @@ def describe(c):
     d = base.describe(dict(c, kind="da" if c["kind"] == "dapick" else c["kind"], slice=c.get("slice"), total=c.get("total"),
                            expected=c.get("expected")))
     d["kind"] = c["kind"]
+    d["drive"] = c.get("drive")
+    d["parser"] = c.get("parser")
     if c["kind"] == "dapick":
         d["idx"] = c["idx"]
         d["core"] = c["core"]
@@ -261,6 +302,14 @@ def classes(c, out):
     cfg = c["cfg"]
     yield "aam=%s" % cfg["aam"]
     yield "cores=%d" % len(cfg["core"])
+    if c.get("drive"):
+        yield "history=%s" % c["drive"][0]
+        if 0 < c["drive"][1] < n:
+            yield "history_splits_enumeration=yes"
+    if c.get("parser") is not None:
+        yield "parser=use_multigraph:%s,init_aam:%s" % tuple(c["parser"])
+    if len(set((p, tuple(a)) for p, a in cfg["core"])) < len(cfg["core"]):
+        yield "equal_core_graphs=yes"
     if "" in pc.all_patterns(cfg):
         yield "empty_pattern=yes"
     if base._nested(cfg):
@@ -273,7 +322,7 @@ def classes(c, out):
 
 def py_invariants(c, out):
     msgs = list(out["msgs"])
-    msgs += pc.shift_messages(c["cfg"])
+    msgs += pc.shift_messages(c["cfg"], base.parser_mg(c))
     if not out["stays"]:
         msgs.append("the exhausted proxy yielded again")
     if out["n"] != out["n_its"]:
